@@ -269,7 +269,9 @@ class C16(Base):
                 segs.append("clr")
                 continue
             api = rng.choice(["v", "vs", "vv", "vvs", "mm", "mms"])
-            if api in ("v", "vs"):
+            if api in ("v", "vv", "mm") and rng.random() < 0.15:
+                api = "x" + api                 # preceded by the same request polled once and dropped
+            if api in ("v", "vs", "xv"):
                 segs.append("%s:%s" % (api, self.gen_key(rng, ids)))
             else:
                 n = bigkeys or rng.choice([0, 1, 2, 2, 3, 3, 4, 5])
@@ -350,6 +352,11 @@ class C16(Base):
             if o == "bad-op" or op == "clr":
                 continue
             api, _, arg = op.partition(":")
+            if o == "STALLED":
+                return ("%s: the asynchronous request never completes - it answered Pending while nobody holds a waker of it "
+                        "that was or will be used%s" % (op, " (an earlier request was polled once and dropped)" if any(x.startswith("x") for x in ops) else ""))
+            if api.startswith("x"):
+                api = api[1:]
             so = split_obs(o)
             if so is None:
                 return "unreadable observation %s" % o[:80]
@@ -411,6 +418,8 @@ class C16(Base):
         for op, o in zip(ops, obs):
             api, _, arg = op.partition(":")
             bump(dist, "op:" + api)
+            if api.startswith("x"):
+                api = api[1:]
             if o == "bad-op":
                 bump(dist, "malformed")
                 continue
